@@ -1,6 +1,7 @@
 SPECIFICATION Spec
 CONSTANTS MaxCap = 2
           MaxOps = 3
+          MaxPend = 3
           MaxMsgs = 5
           FixedWrap = TRUE
 INVARIANTS IndexInRange Refines Bounded NoDup NoLostWakeup NoDupDelivery QueuedNotDelivered
